@@ -63,7 +63,7 @@ func (r *Report) Ob(rule, construct string, ok bool, pos, msg string) bool {
 }
 
 func (r *Report) Violate(rule, construct, pos, msg string, detail map[string]interface{}) {
-	key := rule + ":" + construct
+	key := stableKey(rule + ":" + construct)
 	if r.seenV[key] {
 		return
 	}
@@ -220,4 +220,46 @@ func nonNilStrings(s []string) []string {
 		return []string{}
 	}
 	return s
+}
+
+// stableKey removes run-specific numbering (event, loop and marker ids) from a violation key.
+func stableKey(k string) string {
+	var b strings.Builder
+	for i := 0; i < len(k); i++ {
+		c := k[i]
+		b.WriteByte(c)
+		if (c == '#' || c == '@') && i+1 < len(k) && k[i+1] >= '0' && k[i+1] <= '9' {
+			j := i + 1
+			for j < len(k) && k[j] >= '0' && k[j] <= '9' {
+				j++
+			}
+			// keep small ordinals written by siteKey (name#n) – they follow a letter or ']' – drop ids that follow an op name
+			if i > 0 && (isIdentEnd(k[i-1])) && isOrdinalContext(k, i) {
+				b.WriteString(k[i+1 : j])
+			}
+			i = j - 1
+		}
+	}
+	return b.String()
+}
+
+func isIdentEnd(c byte) bool {
+	return c == ']' || c == ')' || (c >= 'a' && c <= 'z') || (c >= 'A' && c <= 'Z') || (c >= '0' && c <= '9')
+}
+
+// isOrdinalContext: "#n" that ends a site name (followed by end, '/', ':' or ' ') rather than naming a value (wire#12, loopvar#3:i, Len@4).
+func isOrdinalContext(k string, i int) bool {
+	if k[i] == '@' {
+		return false
+	}
+	// the word before '#'
+	j := i
+	for j > 0 && (k[j-1] >= 'a' && k[j-1] <= 'z') {
+		j--
+	}
+	switch k[j:i] {
+	case "wire", "loopvar", "alloc", "make", "makeslice", "unknown", "short", "dyncall", "collect", "new", "calc", "buflen", "bufbytes", "REP":
+		return false
+	}
+	return true
 }
